@@ -429,6 +429,7 @@ def plan(tier):
     units.append(('ownalias', tier))
     units.append(('proplayout', tier))
     units.append(('strings', tier))
+    units.append(('charset', tier))
     units += [('module', tier, kind, k) for kind in ('expr', 'cond', 'pred', 'prop', 'spec') for k in range(4)]
     return units
 
@@ -675,6 +676,35 @@ def run(unit):
             r.count('evaluations')
             _add(r, compare_text('prop', text, None, r), {'kind': 'prop', 'text': text}, len(text))
         r.sample({'own_alias': 'globally : no tt as M { x in [ 0 to @M . lim ]! }'})
+    elif what == 'charset':
+        # (a) every numeric constant in every operand slot: the value stored is the constant's own
+        for c in ('PI', 'E', 'INF', 'NAN'):
+            for tmpl in ('{c}', '- {c}', 'x < {c}', '{c} = x', '{c} != {c}', 'x in [ {c} to 10 ]', 'x in ![ - {c} to {c} ]!', 'x in {{ {c} , 1 }}', 'abs ( {c} ) > 0', 'xs [ {c} ] > 0',
+                         'forall i in [ 0 to {c} ] : @i < {c}', '{c} + {c} * 2 > x', 'max ( [ {c} to 2 ] ) > 0', 'not x >= {c}', '@A . x <= {c}'):
+                text = tmpl.format(c=c)
+                r.count('evaluations')
+                r.count('states')
+                probs = compare_text('expr', text, None, r)
+                if '{c}' != tmpl and not tmpl.startswith('-'):
+                    probs += compare_text('prop', 'after b as A : some tt { ' + text + ' }', None, r)
+                    probs += compare_text('pred', '{ ' + text + ' }', None, r)
+                _add(r, [(f'constant in an operand slot: {k_}', d) for k_, d in probs], {'kind': 'expr', 'text': text}, len(text))
+        # (b) names are ASCII: a letter, digit or mark outside ASCII at the start, inside or at the end of every
+        # kind of name is an illegal character, whatever `\w`, str.isalpha or str.isdigit think of it
+        slots = [('prop', 'globally : no {n}'), ('prop', 'globally : no /ns/{n}'), ('prop', 'globally : no {n}/leaf'), ('prop', 'globally : no ~{n}'), ('prop', 'globally : no ( a or {n} )'),
+                 ('prop', 'globally : no a as {N}'), ('prop', 'after a as {N} : no b {{ x > @{N} . x }}'), ('prop', 'globally : no a {{ {n} > 0 }}'), ('prop', 'globally : no a {{ m . {n} > 0 }}'),
+                 ('prop', 'globally : no a {{ forall {n} in xs : @{n} > 0 }}'), ('prop', 'globally : no a {{ {n} ( x ) > 0 }}'), ('prop', '# id : {n} globally : no a'),
+                 ('expr', '{n}'), ('expr', '{n} + 1'), ('expr', 'm . {n}'), ('expr', '@{n}'), ('expr', '@A . {n}'), ('expr', '{n} [ 0 ]'), ('pred', '{{ {n} }}'), ('cond', '{n} = 1')]
+        for ch in ('é', 'ß', '٣', '²', 'Á', 'π', '中', '́', 'ª', 'Ａ', 'Ⅰ'):
+            for shape in ('b{}', 'b{}c', 'b_{}', '{}b', 'b1{}', '{}'):
+                n = shape.format(ch)
+                for kind, tmpl in slots:
+                    text = tmpl.format(n=n, N=n.upper() if n.upper() != n and len(n.upper()) == len(n) else 'A' + n)
+                    r.count('evaluations')
+                    r.count('states')
+                    probs = compare_text(kind, text, None, r)
+                    _add(r, [(f'character outside ASCII in a name: {k_}', d) for k_, d in probs], {'kind': kind, 'text': text}, len(text))
+        r.sample({'charset': 'globally : no béc'})
     elif what == 'proplayout':
         # layouts of property texts: every single (double) separator deviation
         for kind in ('prop', 'spec', 'pred'):
